@@ -35,6 +35,8 @@ def main():
                 m = {"m1": "m9", "m2": "m10"}.get(m, m)
             if rnd == "6":
                 m = {"m1": "m11", "m2": "m12"}.get(m, m)
+            if rnd == "7":
+                m = {"m1": "m13", "m2": "m14"}.get(m, m)
             sid = "%s-%s" % (pid, m)
             if only and sid not in only and pid not in only:
                 continue
